@@ -84,6 +84,7 @@ Inductive obs :=
 | OPairUpd (k st : N)                      (* synchronous ServicePairingDetailUpdate only *)
 | OMdnsRequest | OMdnsAnnounce | OMdnsShutdown
 | OVisible (n : N) | ODisc (k : N)
+| OAuto (b : bool)                         (* what IsAutoAcceptEnabled answers right after SetAutoAccept *)
 | ODial (k : N)                            (* a websocket Dial to k starts *)
 | OCreate (c k : N) (client : bool) (shipid : N).   (* ship.NewConnectionHandler(..., role, ..., remoteShipID) *)
 
@@ -165,7 +166,7 @@ Definition hstep (h : hub) (l : label) : hub * list obs :=
       let s := get h k in
       (upd h k (set_trusted (set_pst (set_counter s None) ConnectionStateNone) false),
        match s_reg s with Some c => [OAbort c] | None => [] end ++ [OPairUpd k ConnectionStateNone])
-  | LSetAuto b => (mkHub (h_started h) (h_down h) b (h_sks h), [])
+  | LSetAuto b => (mkHub (h_started h) (h_down h) b (h_sks h), [OAuto b])
   | LSetStarted b => (mkHub b (h_down h) (h_auto h) (h_sks h), [])
   | LShutdown =>
       (mkHub (h_started h) (h_down h || c_flag C) (h_auto h) (h_sks h), OMdnsShutdown :: closes_of h)
@@ -323,6 +324,9 @@ Definition mon_core (g : ghost) (before after : N -> sview) (l : label) (o : lis
                | Some r => if N.eqb r c then None else Some r | None => None end)) 15 ++
       (* C11-hub: every reported end is notified, once *)
       cond (Nat.eqb (count_obs (ODisc k) o) 1) 16
+  | LSetAuto b =>
+      (* C01-hub: auto-accept is what the user set last, whatever state the hub is in *)
+      cond (has_obs (OAuto b) o) 20
   | _ => []
   end ++
   (* C01-hub: trusted becomes true only by registration or a hello-ok report *)
